@@ -1,72 +1,40 @@
-/- engine `ustack`: the user-workspace allocator model (Model/UserStack.lean) run on h_stack scripts -/
+/- engine `ustack`: the user-workspace allocator model (Model/UserStack.lean: `setupSpace`, `ustep`) run on h_stack scripts -/
 import SluVerif.Model.UserStack
 import Driver.Tok
 namespace Drv
 open Slu
 
-structure USt where
-  st : UStack := UStack.setup 0
-  iword : Int := 4
-  dword : Int := 8
-  maxsuper : Int := 4
-  rowblk : Int := 4
-  base8 : Int := 0
-  iw : Array (Option Int) := Array.replicate 64 none
-  dw : Array (Option Int) := Array.replicate 64 none
-
 def showO : Option Int → String
   | some v => s!"{v}"
   | none => "NULL"
 
+def showOut (tag : String) : UOut → String
+  | .ptr p => s!"{tag} {showO p}"
+  | .unit => tag
+  | .work rc i d => s!"wi {rc} {showO i} {showO d}"
+  | .sysWork => "wi 0 sys sys"
+  | .two (some a) (some b) => s!"probe {a} {b}"
+  | .two _ _ => "probe full"
+
 partial def ustackLoop (iword dword : Int) : RdM (Array String) := do
   let mut out : Array String := #[]
-  let mut u : USt := { iword, dword }
+  let mut K : UParams := { iword, dword, maxsuper := 4, rowblk := 4, base8 := 0 }
+  let mut u : UState := { mode := .system, st := UStack.setup 0 }      -- static initialisation of the C file: whichspace = SYSTEM (0), stack zeroed
   while !(← atEnd) do
     let t ← next
     match t with
     | "case" =>
       let id ← next; let ms ← int; let rb ← int; let b8 ← int; let lw ← int
-      u := { iword, dword, maxsuper := ms, rowblk := rb, base8 := b8, st := UStack.setup lw }
+      K := { iword, dword, maxsuper := ms, rowblk := rb, base8 := b8 }
+      u := setupSpace u lw                      -- the state of the previous case is what `old` is
       out := out.push s!"case {id}"
-    | "mh" => let b ← int; let (st', r) := u.st.mallocHead b; u := { u with st := st' }; out := out.push s!"mh {showO r}"
-    | "mt" => let b ← int; let (st', r) := u.st.mallocTail b; u := { u with st := st' }; out := out.push s!"mt {showO r}"
-    | "fh" => let b ← int; u := { u with st := u.st.freeHead b }; out := out.push "fh"
-    | "ft" => let b ← int; u := { u with st := u.st.freeTail b }; out := out.push "ft"
-    | "wi" =>
-      let k ← nat; let n ← int; let w ← int
-      let isz := iworkBytes n w u.iword
-      let dsz := dworkBytes n w u.maxsuper u.rowblk u.dword
-      -- ++tail_users; iwork; dwork (dsize + 8, aligned inside)
-      let st1 := { u.st with tailUsers := u.st.tailUsers + 1 }
-      let (st2, ri) := st1.mallocTail isz
-      match ri with
-      | none =>
-        u := { u with st := st2, iw := u.iw.setIfInBounds k none, dw := u.dw.setIfInBounds k none }
-        out := out.push s!"wi {isz + n} NULL NULL"
-      | some oi =>
-        let (st3, rd) := st2.mallocTail (dsz + 8)
-        match rd with
-        | none =>
-          u := { u with st := st3, iw := u.iw.setIfInBounds k (some oi), dw := u.dw.setIfInBounds k none }
-          out := out.push s!"wi {isz + dsz + n} {oi} NULL"
-        | some od =>
-          let a := alignUp u.base8 od
-          u := { u with st := st3, iw := u.iw.setIfInBounds k (some oi), dw := u.dw.setIfInBounds k (some a) }
-          out := out.push s!"wi 0 {oi} {a}"
-    | "wf" =>
-      let _k ← nat
-      let tu := u.st.tailUsers - 1
-      let st' := if tu ≤ 0 then { u.st with tailUsers := tu, used := u.st.used - (u.st.size - u.st.top2), top2 := u.st.size }
-                 else { u.st with tailUsers := tu }
-      u := { u with st := st' }
-      out := out.push "wf"
-    | "probe" =>
-      let (s1, r1) := u.st.mallocHead 0
-      let (s2, r2) := s1.mallocTail 0
-      u := { u with st := s2 }
-      match r1, r2 with
-      | some a, some b => out := out.push s!"probe {a} {b}"
-      | _, _ => out := out.push "probe full"
+    | "mh" => let b ← int; let r := ustep K u (.mh b); u := r.1; out := out.push (showOut "mh" r.2)
+    | "mt" => let b ← int; let r := ustep K u (.mt b); u := r.1; out := out.push (showOut "mt" r.2)
+    | "fh" => let b ← int; let r := ustep K u (.fh b); u := r.1; out := out.push (showOut "fh" r.2)
+    | "ft" => let b ← int; let r := ustep K u (.ft b); u := r.1; out := out.push (showOut "ft" r.2)
+    | "wi" => let _k ← nat; let n ← int; let w ← int; let r := ustep K u (.wi n w); u := r.1; out := out.push (showOut "wi" r.2)
+    | "wf" => let _k ← nat; let r := ustep K u .wf; u := r.1; out := out.push (showOut "wf" r.2)
+    | "probe" => let r := ustep K u .probe; u := r.1; out := out.push (showOut "probe" r.2)
     | other => throw s!"ustack: unknown op {other}"
   return out.push "done"
 
